@@ -1,5 +1,6 @@
 import Driver.C11
 import Driver.C16
+import Driver.C05
 import Driver.C17
 import Driver.C03
 import Driver.C14
@@ -19,6 +20,8 @@ def dispatch (prop : String) (c obs : String) : String × String × Bool :=
   | "C03" => let m := C03.runSM c; (m, if m == obs then "ok" else "evaluator-state-differs-from-model", m == obs)
   | "C03eval" => C03.runEval c obs
   | "C17" => C17.run c obs
+  | "C05" => C05.run c obs
+  | "C05range" => C05.runRange c obs
   | "C14" => C14.runSched c obs
   | "C14live" => C14.runLive c obs
   | "C16" => C16.runDiff c obs
